@@ -94,6 +94,10 @@ Definition row_upd_state (old : c_dev) (fup fdn : N) (kw : bool) : c_dev :=
   {| cd_eui := cd_eui old; cd_addr := cd_addr old; cd_appkey := cd_appkey old; cd_appskey := cd_appskey old;
      cd_nwkskey := cd_nwkskey old; cd_app := cd_app old; cd_state := cd_state old; cd_fup := fup;
      cd_fdn := fdn; cd_relaxed := cd_relaxed old; cd_kw := kw; cd_tag := cd_tag old |}.
+(* the time / counter columns of a downstream row *)
+Definition row_times (old : c_down) (sent ackt : Z) (fc : N) : c_down :=
+  {| cw_eui := cw_eui old; cw_data := cw_data old; cw_port := cw_port old; cw_ack := cw_ack old; cw_created := cw_created old;
+     cw_sent := sent; cw_acktime := ackt; cw_fcnt := fc |}.
 (* UPDATE lora_gateways SET latitude, longitude, altitude, ip, strict_ip *)
 Definition row_upd_gw (old new : c_gw) : c_gw :=
   {| cg_eui := cg_eui old; cg_lat := cg_lat new; cg_lon := cg_lon new; cg_alt := cg_alt new; cg_ip := cg_ip new; cg_strict := cg_strict new |}.
@@ -192,6 +196,30 @@ Definition c_step (s : cstore) (o : regop) : cstore * regres :=
        RCnt ((((cd_fdn r + 1) mod 65536) + 65535) mod 65536))
     | None => (s, RNotFound)
     end
+  (* UPDATE lora_downstream_messages SET sent_time, fcnt_up WHERE device_eui AND created_time; no row: ErrNotFound *)
+  | SetMessageSentTime e c sent fc =>
+    let k := eui_str e in
+    let hit x := bytes_eqb (cw_eui x) k && (cw_created x =? c)%Z in
+    if existsb hit (t_downs s)
+    then (st_downs s (map (fun x => if hit x then row_times x sent (cw_acktime x) fc else x) (t_downs s)), ROk) else (s, RNotFound)
+  (* UPDATE ... SET ack_time WHERE device_eui AND fcnt_up = ? AND sent_time > 0 AND ack_time = 0; no row: ErrNotFound *)
+  | UpdateMessageAckTime e fc ackt =>
+    let k := eui_str e in
+    let hit x := bytes_eqb (cw_eui x) k && (cw_fcnt x =? fc) && (0 <? cw_sent x)%Z && (cw_acktime x =? 0)%Z in
+    if existsb hit (t_downs s)
+    then (st_downs s (map (fun x => if hit x then row_times x (cw_sent x) ackt (cw_fcnt x) else x) (t_downs s)), ROk) else (s, RNotFound)
+  (* UPDATE ... SET sent_time = 0, fcnt_up = 0 WHERE device_eui AND sent_time > 0 AND ack_time = 0 AND ack = 1 *)
+  | ResetActiveAcks e =>
+    let k := eui_str e in
+    let hit x := bytes_eqb (cw_eui x) k && (0 <? cw_sent x)%Z && (cw_acktime x =? 0)%Z && cw_ack x in
+    (st_downs s (map (fun x => if hit x then row_times x 0%Z (cw_acktime x) 0 else x) (t_downs s)), ROk)
+  (* SELECT ... WHERE device_eui AND sent_time = 0 ORDER BY created_time LIMIT 100; the first row, or ErrNotFound *)
+  | GetNextUnsentMessage e =>
+    let k := eui_str e in
+    (s, match c_sort_by cw_created (filter (fun x => bytes_eqb (cw_eui x) k && (cw_sent x =? 0)%Z) (t_downs s)) with
+        | r :: _ => RDowns [dec_down e r]
+        | [] => RNotFound
+        end)
   end.
 
 Fixpoint c_run (s : cstore) (ops : list regop) : cstore * list regres :=
